@@ -7,6 +7,7 @@ for f in /tmp/wt/confirm/*.json; do
   case "$b" in r2_*) tag=r2; src=/tmp/wt/out2; rest=${b#r2_};; r3_*) tag=r3; src=/tmp/wt/out3; rest=${b#r3_};; r4_*) tag=r4; src=/tmp/wt/out4; rest=${b#r4_};; *) tag=r1; src=/tmp/wt/out; rest=$b;; esac
   id=${rest%_*}; k=${rest##*_}
   if [ "$tag" = r1 ]; then name="$id-$k"; else name="$id-$tag-$k"; fi
+  if [ "$id" = C05b ]; then name="C05-r3b-$k"; fi   # second C05 batch of round 3 (the first batch was discarded: its agent had read /verif)
   if [ "$ok" != 1 ]; then echo "NOT CONFIRMED: $b"; continue; fi
   if [ ! -d seeded/$name ]; then
     if [ "$tag" = r1 ]; then /venv/bin/python tools/keep_seed.py $id $k 2>&1 | tail -1; else /venv/bin/python tools/keep_seed.py $id $k --src $src --tag $tag 2>&1 | tail -1; fi
